@@ -1,7 +1,9 @@
 package main
 
 import (
+	"bytes"
 	"errors"
+	"io"
 	"fmt"
 	"strconv"
 	"strings"
@@ -34,6 +36,33 @@ func (s *scripted) Write(p []byte) (int, error) {
 	return n, errors.New("short")
 }
 
+// plainReader hides every optional interface of the reader it wraps (WriterTo in particular), so that io.Copy
+// has to go through the destination's ReadFrom, if it has one, or through Write.
+type plainReader struct{ r io.Reader }
+
+func (p plainReader) Read(b []byte) (int, error) { return p.r.Read(b) }
+
+// writeChunk hands buf to w the way the mode letter says: "" Write, "S" io.WriteString, "R" io.Copy from a plain
+// reader.  All three are the same operation for the caller: that many of its bytes were taken, or an error.
+func writeChunk(w io.Writer, mode string, buf []byte) (int, error) {
+	switch mode {
+	case "S":
+		return io.WriteString(w, string(buf))
+	case "R":
+		n, err := io.Copy(w, plainReader{bytes.NewReader(buf)})
+		return int(n), err
+	}
+	return w.Write(buf)
+}
+
+// splitMode separates the optional mode letter from a chunk token.
+func splitMode(tok string) (string, string) {
+	if len(tok) > 0 && (tok[0] == 'S' || tok[0] == 'R') {
+		return tok[:1], tok[1:]
+	}
+	return "", tok
+}
+
 func init() {
 	// indent <prefix> (<chunk> <acc>)*
 	handlers["indent"] = func(t []string) string {
@@ -44,11 +73,12 @@ func init() {
 		for i := 1; i+1 < len(t); i += 2 {
 			s.script = []string{t[i+1]}
 			s.i = 0
-			buf := unhex(t[i])
+			mode, tok := splitMode(t[i])
+			buf := unhex(tok)
 			if buf == nil {
 				buf = []byte{}
 			}
-			n, err := w.Write(buf)
+			n, err := writeChunk(w, mode, buf)
 			e := "ok"
 			if err != nil {
 				e = "E"
@@ -80,11 +110,12 @@ func init() {
 			}
 			s.script = []string{t[i+2]}
 			s.i = 0
-			buf := unhex(t[i+1])
+			mode, tok := splitMode(t[i+1])
+			buf := unhex(tok)
 			if buf == nil {
 				buf = []byte{}
 			}
-			n, err := w.Write(buf)
+			n, err := writeChunk(w, mode, buf)
 			e := "ok"
 			if err != nil {
 				e = "E"
